@@ -323,24 +323,29 @@ def r3_3(rep):
                     # the two interpolations that follow, skipping the receiver expression of raw_* calls
                     ips = [x for x in t[i + 1:i + 60] if x.startswith("#")]
                     closing = t[i + 1:i + 60]
-                    args = [x for x in closing if x in ("#offset", "#width")][:2]
+                    ip = q.interps()
+                    # the interpolated locals are recognised by what they hold, not by what they are called
+                    src_of = {nm: b.canon(e, 10) for nm, e in ip.items()}
+                    OFF = next((nm for nm, sc in src_of.items() if "offset_into_unit" in sc), "offset")
+                    WID = next((nm for nm, sc in src_of.items() if nm != OFF and re.search(r"Bitfield::width\(|\.width", sc)), "width")
+                    INT = next((nm for nm, sc in src_of.items() if "codegen::helpers::integer_type(" in sc), "bitfield_int_ty")
+                    args = [x for x in closing if x in ("#" + OFF, "#" + WID)][:2]
                     key = "%s@%s" % (tok, fn) + ("#%d" % sum(1 for s in seen if s.startswith("%s@%s" % (tok, fn))) if ("%s@%s" % (tok, fn)) in seen else "")
                     seen.add(key)
-                    rep.check(args == ["#offset", "#width"], "args:" + key, "`%s` is called with (#offset, #width) in this order (found %s)" % (tok, args), q.loc())
-                    ip = q.interps()
-                    off = b.canon(ip["offset"], 6) if "offset" in ip else "?"
-                    wid = b.canon(ip["width"], 6) if "width" in ip else "?"
+                    rep.check(args == ["#" + OFF, "#" + WID], "args:" + key, "`%s` is called with (#offset, #width) in this order (found %s)" % (tok, args), q.loc())
+                    off = b.canon(ip[OFF], 6) if OFF in ip else "?"
+                    wid = b.canon(ip[WID], 6) if WID in ip else "?"
                     rep.check(off == "param:self.ir::comp::Bitfield::offset_into_unit", "offset-source:" + key,
                               "#offset is this bit-field's offset_into_unit() (found %s)" % off, q.loc())
                     rep.check(re.fullmatch(r"ir::comp::Bitfield::width\(param:self\)|param:self\..*width.*", wid) is not None, "width-source:" + key,
                               "#width is this bit-field's width() (found %s)" % wid, q.loc())
                     if tok.startswith(("set", "raw_set")):
-                        rep.check(q.has("val", "as", "u64") or q.has("#param_name", "as", "u64"), "value-widened:" + key,
+                        rep.check(q.has("val", "as", "u64") or any(q.has("#" + nm, "as", "u64") for nm in ip), "value-widened:" + key,
                                   "the stored value is widened to u64 from the field's integer type", q.loc())
-                        rep.check(q.has(":", "#bitfield_int_ty", "=") , "value-through-int-type:" + key,
+                        rep.check(q.has(":", "#" + INT, "=") , "value-through-int-type:" + key,
                                   "the value is first converted to the bit-field's integer type (sign/zero extension of the declared type)", q.loc())
                     else:
-                        rep.check(q.has("as", "#bitfield_int_ty"), "value-narrowed:" + key,
+                        rep.check(q.has("as", "#" + INT), "value-narrowed:" + key,
                                   "the unit's u64 is narrowed to the bit-field's integer type before the final conversion", q.loc())
     for name in ("get", "set", "raw_get", "raw_set", "get_const", "set_const", "raw_get_const", "raw_set_const"):
         rep.check(any(s.startswith(name + "@") for s in seen), "emitted:" + name, "an accessor calling `%s` is generated" % name)
@@ -348,7 +353,7 @@ def r3_3(rep):
     for b in bodies:
         fn = b.path.split("::")[-1]
         for n in b.walk():
-            if n["k"] == "Let" and n["pat"].get("name") == "bitfield_int_ty":
+            if n["k"] == "Let" and n.get("init") is not None and "codegen::helpers::integer_type(" in b.canon(n["init"], 10):
                 src = b.canon(n["init"], 10)
                 rep.check("codegen::helpers::integer_type(" in src and "Bitfield" in src and "::layout(" in src, "int-type-source@" + fn,
                           "bitfield_int_ty is integer_type(layout of the bit-field's own type) (found %s)" % src[:160], b.loc(n))
@@ -394,7 +399,8 @@ def r3_4(rep):
               "clang's offset is overridden by the overflow realignment only for non-packed structs", al.loc(al.root))
     # the struct layout side uses the same predicate
     cg = rep.need(prog.impl_fn("codegen::CodeGenerator", "ir::comp::CompInfo", "codegen"), "<CompInfo as CodeGenerator>::codegen")
-    lets = [n for n in cg.walk() if n["k"] == "Let" and n["pat"].get("name") == "packed"]
+    lets = [n for n in cg.walk() if n["k"] == "Let" and n.get("init") is not None and
+            (strip(n["init"]).get("callee") or strip(n["init"]).get("resolved") or "").endswith("CompInfo::is_packed")]
     rep.check(bool(lets) and cg.canon(lets[0]["init"], 5).startswith("ir::comp::CompInfo::is_packed(param:self"), "layout-packed-is-is_packed",
               "the struct layout side derives `packed` from the same `is_packed`", cg.loc(cg.root))
 
